@@ -200,7 +200,9 @@ def score_grid():
 
 
 GRID = score_grid()
-SMALL_GRID = [0.0, 0.25, 0.25 + 0.9 * (1e-8 + 0.25e-5), 0.25 + 1.7 * (1e-8 + 0.25e-5), 0.5, 0.4999999999999999]
+# exhaustive grid: a cluster {b, b+0.9tol, b+1.7tol} (neighbours close, ends not: isclose is not transitive on it), the
+# asymmetric pair (1 - 1.00099995e-5, 1) [isclose(a, b) but not isclose(b, a)], and a float-noise pair
+SMALL_GRID = [0.25, 0.25 + 0.9 * (1e-8 + 0.25e-5), 0.25 + 1.7 * (1e-8 + 0.25e-5), 1.0 - 1.00099995e-5, 1.0, 0.4999999999999999, 0.5]
 
 
 # ---------------------------------------------------------------------------------------------------------------- 1a isclose
@@ -318,9 +320,17 @@ def oracle_update_hof(res, n_hof, before, pop, after, inp):
     ss = [float(s) for s, _ in after]
     if any(not le_tol(a, b) for a, b in zip(ss, ss[1:])):
         bad("update_hof:unsorted", "hall of fame not ordered by non-decreasing score (beyond the isclose tolerance)")
-    if ss and before and not le_tol(ss[0], float(before[0][0])):
-        bad("update_hof:best-got-worse", "best score increased")
     allscores = [float(s) for s, _ in before] + [float(s) for s, _ in pop]
+    # one insertion moves the best score by at most the tolerance (theorem update_hof_best_one_member); over a whole call the
+    # steps can add up when isclose is not transitive on the scores, so the clause is demanded exactly on coherent scores and
+    # with one tolerance per population member otherwise
+    if ss and before:
+        b0 = float(before[0][0])
+        if coherent(allscores):
+            if not (ss[0] <= b0 or np_close(ss[0], b0)):
+                bad("update_hof:best-got-worse", "best score increased")
+        elif b0 != float("inf") and ss[0] > b0 + len(pop) * 1.01 * (1e-8 + 1e-5 * max(abs(x) for x in allscores if x != float("inf"))):
+            bad("update_hof:best-got-worse", "best score increased by more than one tolerance per processed member")
     if coherent(allscores) and ss:
         # exact statement on isclose classes: sorted by (class, node count) and nothing strictly better than the last entry was dropped
         for (a, ca), (b, cb) in zip(after, after[1:]):
@@ -689,7 +699,10 @@ def gen_jobs(ctx, n_jobs, long_small=0):
                "n_stop": rng.randrange(1, 11), "sel": rng.randrange(2), "adapt": rng.randrange(2),
                "k": rng.choice([2, 2, 2, 1, 3, 0]), "seed": rng.randrange(10 ** 6), "det": rng.choice([1, 1, 1, 0]),
                "backend": "s", "positions": 2}
-        if i % 9 == 4 and n <= 3:
+        if i % 9 == 4 and n <= 3 and solver == "evo":
+            # (HybridEvolutionarySolver + DensityMatrixCompiler always raises UnboundLocalError in Infidelity.evaluate: the
+            # time-reversed solver converts the shared target to 's' in place and metrics.py then tests state.rep_data instead of
+            # rep_data — outside C19, recorded in handoff/evo.md)
             job["backend"] = "dm"
         if i % 11 == 7:
             job["det"] = "p"
@@ -736,8 +749,12 @@ def first_divergence(t1, t2):
             continue
         cause = "other"
         desc = f"event {k} ({e1.get('ev')}, generation {e1.get('gen')}) differs"
-        if e1.get("ev") == "update_hof" == e2.get("ev"):
-            for m1, m2 in zip(e1.get("moves", []), e2.get("moves", [])):
+        # the transformations of this phase are logged with the next update_hof event (for `init`: the moves of
+        # randomize_circuit are flushed into generation 0)
+        u1 = next((e for e in t1[k:] if e.get("ev") == "update_hof"), None)
+        u2 = next((e for e in t2[k:] if e.get("ev") == "update_hof"), None)
+        if u1 is not None and u2 is not None:
+            for m1, m2 in zip(u1.get("moves", []), u2.get("moves", [])):
                 if m1 != m2:
                     if m1["t"] == m2["t"] and sorted(m1["c"]) == sorted(m2["c"]):
                         cause = f"candidate-order:{m1['t']}"
@@ -790,6 +807,11 @@ def compare_run(res, job, out, rep, fps):
         # the run raised: the model must fail with the same class in the same generation
         gen_fail = len(ups) - 1 if ups else 0
         logs_done = len([e for e in tr if e["ev"] == "logs"])
+        if len(ups) == logs_done:
+            # raised while building the population, transforming, compiling or evaluating: these are parameters of the model
+            # (Params.mutate / Params.metric are total), so there is nothing to compare; reproducibility of the failure is still checked
+            res.count("errors", f"solve:raised-outside-model:{out['error']}")
+            return
         if rep["_status"] != "err" or rep.get("_err") != out["error"] or int(rep.get("gen", -1)) != max(gen_fail, logs_done):
             res.exact_break("solve:error-class", input=inp, impl=f"err {out['error']} after {len(ups)} update_hof / {logs_done} update_logs calls: {out.get('error_msg')}",
                             model=rep["_raw"][:300])
@@ -866,6 +888,7 @@ def oracle_run(res, job, out):
 
     ups = [e for e in tr if e["ev"] == "update_hof"]
     n_hof = job["n_hof"]
+    run_coherent = coherent([eu.unratio(d["s"]) for e in ups for d in e["pop"]] + [float("inf")])
     prev_best = None
     hof_obj_fp = {}
     for g, e in enumerate(ups):
@@ -875,8 +898,11 @@ def oracle_run(res, job, out):
             bad("solve:hof-length", f"hall of fame has {len(hof)} entries at generation {g}, n_hof={n_hof}")
         if any(not le_tol(a, b) for a, b in zip(ss, ss[1:])):
             bad("solve:hof-unsorted", f"hall of fame not ordered by non-decreasing score at generation {g}", impl=str(ss))
-        if ss and prev_best is not None and not le_tol(ss[0], prev_best):
-            bad("solve:best-got-worse", f"best score rose from {prev_best} to {ss[0]} at generation {g}")
+        if ss and prev_best is not None and not (ss[0] <= prev_best or np_close(ss[0], prev_best)):
+            if run_coherent:
+                bad("solve:best-got-worse", f"best score rose from {prev_best} to {ss[0]} at generation {g}")
+            else:
+                res.count("errors", "solve:best-moved-within-incoherent-scores")
         if ss:
             prev_best = ss[0]
         pop_objs = {d["o"] for d in e["pop"]}
@@ -1100,6 +1126,8 @@ def run(ctx):
         synth_choice(ctx, res, drv)
         jobs = gen_jobs(ctx, 36 if ctx.quick else 240, long_small=0 if ctx.quick else 24)
         run_jobs(ctx, res, drv, pool, jobs)
+        if res.extra.get("infra_failures"):
+            raise RuntimeError(f"{res.extra['infra_failures']} worker job(s) failed for infrastructure reasons: {res.notes[:3]}")
         res.extra["configurations"] = len(jobs)
         res.extra["hashseeds"] = list(range(pool.n))
     finally:
